@@ -229,8 +229,7 @@ def step (st : St) (op implObs : String) : St × String × List String × List S
       if pre then
         match parseJobs? implObs with
         | some js =>
-          let secs := allSecs ((st.pieces.drop b).take (e - b))
-          if JobsCover secs js then [] else [s!"C02 jobs-not-covering begin={b} end={e}"]
+          if JobsCover (secsOfRange st.pieces b e) js then [] else [s!"C02 jobs-not-covering begin={b} end={e}"]
         | none => [s!"C02 jobs-failed begin={b} end={e}"]
       else []
     let tags := (match model with | none => ["branch:jobs-panic"] | some _ => []) ++
